@@ -558,6 +558,100 @@ func (c *Ctx) regexpOf(v ssa.Value) *syntax.Regexp {
 	if g == nil {
 		return nil
 	}
+	return c.RegexpOfGlobal(g)
+}
+
+// PatternOfGlobal returns the pattern constant a *regexp.Regexp global is compiled from in package init.
+func (c *Ctx) PatternOfGlobal(g *ssa.Global) (string, bool) {
+	for fn := range c.AllRepoFuncs() {
+		if fn.Name() != "init" {
+			continue
+		}
+		for _, b := range fn.Blocks {
+			for _, in := range b.Instrs {
+				st, ok := in.(*ssa.Store)
+				if !ok || st.Addr != g {
+					continue
+				}
+				call, ok := st.Val.(*ssa.Call)
+				if !ok {
+					continue
+				}
+				if f := call.Call.StaticCallee(); f == nil || !(f.String() == "regexp.MustCompile" || f.String() == "regexp.Compile") {
+					continue
+				}
+				if s, ok := constString(call.Call.Args[0]); ok {
+					return s, true
+				}
+			}
+		}
+	}
+	return "", false
+}
+
+// RegexpSubsetOfDigits reports whether every word matched by the regexp global consists of ASCII digits only.
+func (c *Ctx) RegexpSubsetOfDigits(g *ssa.Global) bool {
+	re := c.RegexpOfGlobal(g)
+	if re == nil {
+		return false
+	}
+	// must be anchored at both ends, otherwise a match says nothing about the whole operand
+	if p, err := syntax.Compile(re.Simplify()); err != nil || p.StartCond()&syntax.EmptyBeginText == 0 {
+		return false
+	}
+	if !endsAnchored(re) {
+		return false
+	}
+	var only func(r *syntax.Regexp) bool
+	only = func(r *syntax.Regexp) bool {
+		switch r.Op {
+		case syntax.OpLiteral:
+			for _, x := range r.Rune {
+				if x < '0' || x > '9' {
+					return false
+				}
+			}
+			return r.Flags&syntax.FoldCase == 0 || true
+		case syntax.OpCharClass:
+			for i := 0; i+1 < len(r.Rune); i += 2 {
+				if r.Rune[i] < '0' || r.Rune[i+1] > '9' {
+					return false
+				}
+			}
+			return true
+		case syntax.OpAnyChar, syntax.OpAnyCharNotNL:
+			return false
+		}
+		for _, s := range r.Sub {
+			if !only(s) {
+				return false
+			}
+		}
+		return true
+	}
+	return only(re)
+}
+
+func endsAnchored(re *syntax.Regexp) bool {
+	switch re.Op {
+	case syntax.OpEndText:
+		return true
+	case syntax.OpConcat:
+		return len(re.Sub) > 0 && endsAnchored(re.Sub[len(re.Sub)-1])
+	case syntax.OpCapture:
+		return endsAnchored(re.Sub[0])
+	case syntax.OpAlternate:
+		for _, s := range re.Sub {
+			if !endsAnchored(s) {
+				return false
+			}
+		}
+		return true
+	}
+	return false
+}
+
+func (c *Ctx) RegexpOfGlobal(g *ssa.Global) *syntax.Regexp {
 	for fn := range c.AllRepoFuncs() {
 		if fn.Name() != "init" {
 			continue
